@@ -84,6 +84,10 @@ def build(fa, si, codec, nblocks):
     return raw, written, fo.getvalue()
 
 
+_END = object()
+HOWS = ("reader", "block_reader", "reader-next", "block_reader-next")
+
+
 def consume(fa, data, how):
     """-> (records yielded, exception or None)"""
     got = []
@@ -91,10 +95,25 @@ def consume(fa, data, how):
         if how == "reader":
             for r in fa.reader(io.BytesIO(data)):
                 got.append(r)
-        else:
+        elif how == "block_reader":
             for blk in fa.block_reader(io.BytesIO(data)):
                 for r in blk:
                     got.append(r)
+        elif how == "reader-next":
+            # the iterator protocol used directly: next(r, default) until the default comes back
+            it = fa.reader(io.BytesIO(data))
+            while True:
+                r = next(it, _END)
+                if r is _END:
+                    break
+                got.append(r)
+        else:
+            it = fa.block_reader(io.BytesIO(data))
+            while True:
+                blk = next(it, _END)
+                if blk is _END:
+                    break
+                got.extend(blk)
         return got, None
     except Exception as e:
         return got, e
@@ -143,7 +162,7 @@ def run_unit(unit, tier):
     for cut in cuts:
         piece = data[:cut]
         seen.add(piece)
-        for how in ("reader", "block_reader"):
+        for how in HOWS:
             info = dict(base_info, fault="cut", cut=cut, how=how, unit=unit)
             note_case(info)
             res.evals += 1
@@ -168,7 +187,7 @@ def run_unit(unit, tier):
                 mutated[off] ^= x
                 mutated = bytes(mutated)
                 seen.add(mutated)
-                for how in ("reader", "block_reader"):
+                for how in HOWS:
                     info = dict(base_info, fault="sync", block=bi, offset=off, xor=x, how=how, unit=unit)
                     note_case(info)
                     res.evals += 1
@@ -184,12 +203,14 @@ def run_unit(unit, tier):
         for cut in (range(len(enc)) if len(enc) < 5000 else sorted(set(range(0, 40)) | set(range(len(enc) - 600, len(enc))) | set(range(65500, min(len(enc), 65600))) | set(range(0, len(enc), 1009)))):
             res.evals += 1
             seen.add(("s", enc[:cut]))
-            try:
-                out = fa.schemaless_reader(io.BytesIO(enc[:cut]), copy.deepcopy(raw))
-            except Exception:
-                continue
-            info = dict(base_info, fault="schemaless-prefix", cut=cut, record=r, unit=unit)
-            res.add(Violation("c06.schemaless", "prefix-returned-value", f"prefix {enc[:cut].hex()} of {enc.hex()} returned {short(out)} | {short(info, 300)}", info))
+            for opt in ({}, {"handle_unicode_errors": "replace"}, {"handle_unicode_errors": "ignore"}, {"return_record_name": True}):
+                try:
+                    out = fa.schemaless_reader(io.BytesIO(enc[:cut]), copy.deepcopy(raw), **opt)
+                except Exception:
+                    continue
+                info = dict(base_info, fault="schemaless-prefix", cut=cut, record=r, unit=unit, options=opt)
+                res.add(Violation("c06.schemaless", "prefix-returned-value" + (":" + "+".join(opt) if opt else ""), f"prefix {enc[:cut].hex()[:200]} of {enc.hex()[:200]} (options {opt}) returned {short(out)} | {short(info, 300)}", info))
+                break
         # the same prefixes with the value as a trailing field that the reader schema drops (skip path)
         WL = {"type": "record", "name": "WrapL__", "fields": [{"name": "keep", "type": "int"}, {"name": "skipme", "type": copy.deepcopy(raw)}]}
         RL = {"type": "record", "name": "WrapL__", "fields": [{"name": "keep", "type": "int"}]}
